@@ -26,7 +26,8 @@ Need(v) == CASE v = "E" -> {} [] v = "A" -> {"p"} [] v = "B" -> {"p", "q"}   \* 
 (***************************************************************************)
 \* acc / snap: accelerate and snapshot of endpoint.go (the poller's last scan)
 EpInit(cfg) == [disk |-> "A", scS |-> FALSE, scT |-> FALSE, staged |-> {}, pend |-> <<>>,
-           acc |-> cfg.watch = "poll", snap |-> "A"]
+           acc |-> cfg.watch = "poll", snap |-> "A",
+           gone |-> {}]                 \* files of the root that can no longer be opened
 NoSnap == "none"
 ScanErr(e, a) == [err |-> e, again |-> a, snap |-> NoSnap]
 
@@ -62,6 +63,40 @@ LTrans(cfg, e, to, cancelled) ==
             [st |-> [e1 EXCEPT !.disk = to, !.acc = @ /\ to = e.disk], res |-> TransRes("", <<to>>, <<>>, FALSE)]
        ELSE [st |-> e1, res |-> TransRes("", <<e.disk>>, <<[path |-> "", err |-> "unable to provide staged file"]>>, TRUE)]
 
-LSupply(e, paths) == [err |-> "", tx |-> [i \in DOMAIN paths |-> <<paths[i], e.disk>>]]
+(***************************************************************************)
+(* rsync.Transmit / rsync.DecodeToReceiver: the transmission stream of a     *)
+(* batch of files.  A file that can be opened travels as an operation        *)
+(* message and a final message; a file that cannot be opened as one final    *)
+(* message that carries the error - and the batch goes on with the next      *)
+(* file.  An error is only legal on a file's final message                   *)
+(* (Transmission.EnsureValid).                                               *)
+(***************************************************************************)
+OpenErr == "unable to open file"
+TxOp(p, c) == [p |-> p, done |-> FALSE, err |-> "", c |-> c]
+TxDone(p, err) == [p |-> p, done |-> TRUE, err |-> err, c |-> ""]
+RECURSIVE TxStream(_, _, _)
+TxStream(paths, unopenable, c) ==
+  IF paths = <<>> THEN <<>>
+  ELSE (IF Head(paths) \in unopenable THEN <<TxDone(Head(paths), OpenErr)>>
+        ELSE <<TxOp(Head(paths), c), TxDone(Head(paths), "")>>)
+       \o TxStream(Tail(paths), unopenable, c)
+TxValid(m) == m.done \/ m.err = ""
+
+\* what-if "staleError": one Transmission object is reused and its Error field is
+\* not cleared when the operations of the next file are filled in
+RECURSIVE StaleErrors(_, _)
+StaleErrors(msgs, carry) ==
+  IF msgs = <<>> THEN <<>>
+  ELSE LET m == Head(msgs) IN
+       IF m.done THEN <<m>> \o StaleErrors(Tail(msgs), m.err)
+       ELSE <<[m EXCEPT !.err = carry]>> \o StaleErrors(Tail(msgs), carry)
+
+\* the receiver of a staging operation: a file is staged by its error-free final message
+LReceiveMsg(e, m) ==
+  IF ~m.done THEN e ELSE IF m.err = "" THEN LReceive(e, m.p) ELSE [e EXCEPT !.pend = Tail(@)]
+RECURSIVE LReceiveStream(_, _)
+LReceiveStream(e, msgs) == IF msgs = <<>> THEN e ELSE LReceiveStream(LReceiveMsg(e, Head(msgs)), Tail(msgs))
+
+LSupply(e, paths) == [err |-> "", tx |-> TxStream(paths, e.gone, e.disk)]
 
 ====
